@@ -54,6 +54,7 @@ type PathStats struct {
 	Unknown     int
 	Forks       int
 	Merges      int
+	SimpQueries int
 	Reached     map[string]bool
 	Funcs       map[string]int
 	Samples     []string
@@ -93,6 +94,8 @@ type Path struct {
 	guard      *Term // extra guard active during merged (speculative) evaluation; nil otherwise
 	noFork     bool  // set during speculative merge evaluation
 	concArr    map[int]*Term
+	impliedMemo  map[[2]int]int
+	noSolverSimp bool
 	mergeBaseObj int
 	mergeBudget  int64
 }
